@@ -114,7 +114,7 @@ def theorem_inventory(prop):
                 output=out[-3000:], ok=ok, missing_print=sorted(set(thms) - set(printed)))
 
 
-def eval_shard(prop, kmod, idx, terms, outdir, extra_imports=""):
+def eval_shard(prop, kmod, idx, terms, outdir, extra_imports="", explain=False):
     """Writes cases_<idx>.v with the given case terms and evaluates mismatches/failing."""
     name = "cases_%s_%d" % (prop, idx)
     path = os.path.join(outdir, name + ".v")
@@ -127,6 +127,8 @@ def eval_shard(prop, kmod, idx, terms, outdir, extra_imports=""):
         f.write("Definition M := Eval vm_compute in %s.mismatches cases.\n" % kmod)
         f.write("Definition F := Eval vm_compute in %s.failing cases.\n" % kmod)
         f.write("Print M.\nPrint F.\n")
+        if explain:
+            f.write("Definition X := Eval vm_compute in map %s.explain cases.\nPrint X.\n" % kmod)
     rc, out = sh(["timeout", "1200", "coqc", "-Q", COQ, "GB", name + ".v"], cwd=outdir)
     if rc != 0:
         return None, None, out
